@@ -196,7 +196,15 @@ def rand_case(rng, glen=None, shape=None):
     unbounded_ok = bool(coll["genes"] or coll["fcolls"]) or parent["mode"] in ("chrom", "chunk", "chunk-minus")
     if not unbounded_ok or rng.random() < 0.3:
         # explicit bounds (always for collections whose bounds cannot be inferred: that refusal belongs to C19 / K9)
-        coll["start"], coll["end"] = (cs, ce) if parent["mode"].startswith("chunk") else (0, glen)
+        full = (cs, ce) if parent["mode"].startswith("chunk") else (0, glen)
+        coll["start"], coll["end"] = full
+        spans = [b for g in coll["genes"] for t in g["transcripts"] for b in t["exons"]] + [b for fc in coll["fcolls"] for f in fc["features"] for b in f["blocks"]] \
+            + [[v["start"], v["end"]] for vc in coll["vcolls"] for v in vc["variants"]]
+        if spans and rng.random() < 0.5:
+            lo, hi = min(b[0] for b in spans), max(b[1] for b in spans)
+            if full[0] <= lo and hi <= full[1]:
+                # bounds tighter than the parent but still containing every child
+                coll["start"], coll["end"] = rng.randint(full[0], lo), rng.randint(hi, full[1])
     for g in coll["genes"]:
         for t in g["transcripts"]:
             t["sequence_name"] = coll["sequence_name"]
